@@ -226,14 +226,7 @@ func r062(c *an.Ctx) {
 		}
 		c.Check(ok, rule, "pkg/masks.WithFieldMask|stores the mask in the filter", fn.Pos(), "", "WithFieldMask does not store the given mask")
 	}
-	if fn := mustFunc(c, rule, resPkg, "ReadRequest", "FilterClone"); fn != nil {
-		ok := true
-		for _, r := range an.Returns(fn) {
-			if !filterCloneOf(r.Results[0], func(a ssa.Value) bool { return a == ssa.Value(fn.Params[1]) }) {
-				ok = false
-			}
-		}
-		c.Check(ok, rule, "(*pkg/resource.ReadRequest).FilterClone|delegates to the request's filter", fn.Pos(), "", "ReadRequest.FilterClone does not return ResponseFilter().FilterClone(m)")
+	if fn := readRequestFilterClone(c, rule); fn != nil {
 	}
 	// Value.get (or, when the helper has been folded into it, Value.Get itself)
 	if c.Prog.Func(resPkg, "Value", "get") == nil {
@@ -595,8 +588,9 @@ func projectionIsIdentity(r *ssa.Return, fields []string) map[string]bool {
 // r065: field-mask paths are compared by whole segments. Wherever pkg/masks tests one path for being a prefix of
 // another, the prefix ends in the separator (a constant ending in "." or `path + "."`): `state` is not a parent of
 // `state_change_time`, and a read mask naming both selects both.
-func r065(c *an.Ctx) {
-	const rule = "R06.5"
+func r065(c *an.Ctx) { r065as(c, "R06.5") }
+
+func r065as(c *an.Ctx, rule string) {
 	n := 0
 	for _, fn := range c.Prog.FuncsIn("pkg/masks") {
 		if c.Prog.IsGenerated(fn.Pos()) {
@@ -623,4 +617,22 @@ func r065(c *an.Ctx) {
 				"one mask path is tested for being a plain string prefix of another: a field whose name merely starts with another field's name (state_change_time next to state) is taken for a sub-path of it, so a read mask naming both loses the longer one (the field is missing from what Get/List/Pull return), or an update path is matched against the wrong writable field")
 		}
 	}
+}
+
+// readRequestFilterClone: ReadRequest.FilterClone hands back, on every path, what the request's own filter makes of
+// the message (no shortcut for "empty" masks: a present mask without paths selects nothing, a nil mask everything).
+func readRequestFilterClone(c *an.Ctx, rule string) *ssa.Function {
+	fn := mustFunc(c, rule, resPkg, "ReadRequest", "FilterClone")
+	if fn == nil {
+		return nil
+	}
+	ok := true
+	for _, r := range an.Returns(fn) {
+		if !filterCloneOf(r.Results[0], func(a ssa.Value) bool { return a == ssa.Value(fn.Params[1]) }) {
+			ok = false
+		}
+	}
+	c.SawFunc(an.FuncName(fn))
+	c.Check(ok, rule, "(*pkg/resource.ReadRequest).FilterClone|delegates to the request's filter", fn.Pos(), "", "ReadRequest.FilterClone does not return ResponseFilter().FilterClone(m) on every path (e.g. a shortcut returns the message untouched when the mask has no paths): Get with a present but empty read mask returns the whole value while Pull, which builds its filter itself, sends the empty projection")
+	return fn
 }
